@@ -7,6 +7,8 @@ Every random decision goes through the Choices object; 0 is always the simplest 
 """
 
 SLOT_NAMES = ["a", "b", "dflt"]
+MEDIA_JS = ["shared.js", "a.js", "b.js"]
+MEDIA_CSS = ["shared.css", "x.css", "y.css"]
 PROVIDE_KWARGS = ["pva", "pvb", "pvc"]
 ELEM_TAGS = ["div", "span", "article", "section"]
 # class-name pool; entries beyond the first few stress C04 (names outside [A-Za-z0-9_], prefixes of each other)
@@ -102,7 +104,20 @@ class Gen:
             page = self.nodes(page_scope, owner=None, depth=0, top=True)
             if not any(n_[0] == "comp" for n_ in page):
                 page.append(self.comp_node(page_scope, None, 0, in_fill=False))
-        return {"mode": mode, "comps": self.comps, "page": page, "ctx": ctx, "py_entry": py_entry,
+        wrap = 0
+        if P.get("page_wrap") and not py_entry:
+            wrap = ch.draw(5, "page_wrap")
+            css_ph = ["ph", "{% component_css_dependencies %}"]
+            js_ph = ["ph", "{% component_js_dependencies %}"]
+            if wrap == 1:      # head + body
+                page = [["raw", "<html><head><title>T</title></head><body>"]] + page + [["raw", "</body></html>"]]
+            elif wrap == 2:    # head + body + placeholders
+                page = [["raw", "<html><head>"], css_ph, ["raw", "</head><body>"]] + page + [js_ph, ["raw", "</body></html>"]]
+            elif wrap == 3:    # placeholders only
+                page = [css_ph] + page + [js_ph]
+            elif wrap == 4:    # body only, upper-case-free variant with whitespace in the end tag
+                page = [["raw", "<body>"]] + page + [["raw", "</body >"]]
+        return {"mode": mode, "comps": self.comps, "page": page, "ctx": ctx, "py_entry": py_entry, "page_wrap": wrap,
                 "features": sorted(f for f, v in self.feats.items() if v)}
 
     def py_entry_node(self):
@@ -152,6 +167,8 @@ class Gen:
                         # otherwise callers are responsible (see comp_node) -- keep it simple: give a default
                         has_default = not ch.chance(1, 3, "inj_nodefault")
                     cd["injects"].append([k, has_default])
+        if self.P.get("assets"):
+            self.assets(cd, i)
         self.comps[i] = cd  # visible to slot()
         scope = {"str": [f"{name}_s"], "list": [f"{name}_l"], "names": [f"{name}_n"],
                  "bool": [f"{name}_t", f"{name}_f"], "aliases": []}
@@ -162,6 +179,26 @@ class Gen:
         if self.P["elems"]:
             cd["echo_id"] = True
         return cd
+
+    def assets(self, cd, i):
+        ch = self.ch
+        label = cd["label"]
+        used = {c["cls"] for c in self.comps if c is not None}
+        pool = [n for n in CLASS_NAMES if n not in used] or [f"Extra{i}"]
+        cd["cls"] = pool[ch.weighted([6] + [1] * (len(pool) - 1), "clsname")]
+        jk = ch.weighted([3, 5, 1], "js_kind")       # none / code / blank
+        cd["js"] = [None, 'console.log("JS_%s");' % label, "  \n "][jk]
+        ck = ch.weighted([3, 5, 1], "css_kind")
+        cd["css"] = [None, ".%s { color: red; }" % label, " "][ck]
+        cd["media_js"] = ch.subset(MEDIA_JS, "media_js", 1, 3)
+        files = ch.subset(MEDIA_CSS, "media_css", 1, 3)
+        if files and ch.chance(1, 3, "css_dict"):
+            cd["media_css"] = {"all": files[:1], "print": files[1:]} if len(files) > 1 else {"print": files}
+        else:
+            cd["media_css"] = files
+        later = [j for j in range(i + 1, len(self.comps)) if self.comps[j] is not None]
+        cd["base"] = self.comps[ch.choice(later, "base")]["name"] if later and ch.chance(1, 4, "has_base") else None
+        cd["media_extend"] = not ch.chance(1, 4, "extend_false") if (cd["base"] or True) else True
 
     # -- node lists ---------------------------------------------------------
     def nodes(self, scope, owner, depth, top=False, in_fill=False, in_slot_default=False):
